@@ -43,6 +43,23 @@ def run(ctx):
                 batch = Slice(F, b).operand(ct["args"][1])
                 puts = [(pi, pt) for (pi, pt) in calls_matching(b, PUT_RX) if Slice(F, b).operand(pt["args"][0]).seen & batch.seen]
                 idx_puts = [(pi, pt) for (pi, pt) in puts if is_index_value(Slice(F, b, through_calls=True).operand(pt["args"][3]).sources)]
+                if not idx_puts:
+                    # the index puts may be staged by a private helper that is handed the batch and the applied id
+                    # (`Self::stage_last_applied(db, &mut batch, highest)`)
+                    for (hi, ht) in b.calls():
+                        if not any(Slice(F, b).operand(a).seen & batch.seen for a in ht["args"]):
+                            continue
+                        if not any(is_index_value(Slice(F, b, through_calls=True).operand(a).sources) or
+                                   Slice(F, b, through_calls=True).operand(a).has_field("LogId", "index") or
+                                   any(x[0] == "field" and x[2] in ("index",) for x in Slice(F, b, through_calls=True).operand(a).sources) for a in ht["args"]):
+                            continue
+                        for tg in F.resolve_targets(ht):
+                            if tg in F.bodies and strip_generics(self_type_of(F, tg) or "") == strip_generics(root.self_ty or ""):
+                                for hb in real_bodies(F, F.bodies[tg]):
+                                    for (pi, pt) in calls_matching(hb, PUT_RX):
+                                        vs = Slice(F, hb, through_calls=True).operand(pt["args"][3])
+                                        if vs.has_field("LogId", "index") or is_index_value(vs.sources):
+                                            idx_puts.append((hi, ht))
                 name = strip_generics(callee_key(ct)).split("::")[-1]
                 ctx.check("C15-a", "%s#commit:%s#carries-applied-index" % (fkey(root), name), bool(idx_puts),
                           "the committed batch also receives the applied index",
